@@ -46,6 +46,17 @@ pub fn observe<'a, E: Express<'a, Sym>>(e: &E) -> R {
     }
 }
 
+/// the same through the consuming evaluation (vector / iterator variant)
+pub fn observe_consuming(e: &FX, iter: bool) -> R {
+    let vars: Vec<String> = e.var_names().to_vec();
+    let vals: Vec<Sym> = (0..vars.len()).map(Sym::Var).collect();
+    let r = if iter { e.eval_iter(vals.into_iter()) } else { e.eval_vec(vals) };
+    match r {
+        Ok(val) => Ok(Obs { vars, val }),
+        Err(e) => Err(Fail::Eval(e.msg().to_string())),
+    }
+}
+
 fn p<T>(r: ExResult<T>) -> Result<T, Fail> {
     r.map_err(|e| Fail::Parse(e.msg().to_string()))
 }
@@ -71,6 +82,9 @@ pub fn run_path(path: &str, text: &str) -> R {
         match path {
             "flat" => observe(&p(FX::parse(text))?),
             "flat_wo" => observe(&p(FX::parse_wo_compile(text))?),
+            "flat_vec" => observe_consuming(&p(FX::parse(text))?, false),
+            "flat_iter" => observe_consuming(&p(FX::parse(text))?, true),
+            "flat_wo_vec" => observe_consuming(&p(FX::parse_wo_compile(text))?, false),
             "flat_recompiled" => {
                 let mut f = p(FX::parse(text))?;
                 f.compile();
